@@ -168,7 +168,7 @@ def jobs(tier):
     # ---- command line (h_cmdline.c)
     US = {"expand_array.0": 11}
     CF = ["free_parse_results", "parsec_cmd_line_get_tail", "parsec_cmd_line_parse"]
-    for (na, ntl, np_) in [(0, 0, 0), (2, 2, 2), (1, 0, 1)] + ([(3, 3, 3), (0, 3, 0)] if full else []):
+    for (na, ntl, np_) in [(0, 0, 0), (2, 2, 2), (1, 0, 1)] + ([(0, 3, 0)] if full else []):
         J.append(Job("cmdline.free_results_get_tail.a%d.t%d.p%d" % (na, ntl, np_), "h_cmdline.c", entry="h_cmd_small",
                      defines={"NA": na, "NTL": ntl, "NP": np_}, unwind=12, unwindset=US, object_bits=12, extra_cbmc=FS, canaries=3,
                      bounded="handle with lcl_argv of %d, tail of %d entries (0 = NULL), %d parameter records (record k has k parameters); "
